@@ -37,10 +37,29 @@ def main():
         else:
             mod.run(chk)
             rc = chk.finish()
-    except Exception:
-        traceback.print_exc()
-        print('infrastructure error in check %s (exit 2, not a violation)' % a.pid)
-        rc = 2
+    except Exception as ex:
+        tb = traceback.extract_tb(ex.__traceback__)
+        src = os.path.join(common.REPO, 'src') + os.sep
+        inside = [f for f in tb if os.path.abspath(f.filename).startswith(src)]
+        if inside and not a.replay:
+            # the library itself raised, in a call the check does not expect to fail (on the unchanged tree it does not): the
+            # correspondence machinery no longer runs to the end.  That is reported like any other broken tie for which no failing
+            # input was isolated - the replay names the call that raised.
+            f = inside[-1]
+            where = '%s:%d in %s' % (os.path.relpath(f.filename, common.REPO), f.lineno, f.name)
+            outer = [g for g in tb if not os.path.abspath(g.filename).startswith(src)][-1]
+            chk.obligation('correspondence:the check runs to its end (no unexpected exception from the library)', 'correspondence', False,
+                           '%s: %s at %s' % (type(ex).__name__, str(ex)[:200], where))
+            chk.violation('the library raised %s: %s at %s during a call the check makes on every run (%s:%d); no failing input isolated'
+                          % (type(ex).__name__, str(ex)[:160], where, os.path.basename(outer.filename), outer.lineno),
+                          {'kind': 'unexpected-exception', 'exception': type(ex).__name__, 'message': str(ex)[:500], 'raised_at': where,
+                           'called_from': '%s:%d' % (os.path.basename(outer.filename), outer.lineno),
+                           'traceback': traceback.format_exc()[-3000:], 'broken': 'correspondence:the check runs to its end'}, found_input=False)
+            rc = chk.finish()
+        else:
+            traceback.print_exc()
+            print('infrastructure error in check %s (exit 2, not a violation)' % a.pid)
+            rc = 2
     sys.exit(rc)
 
 
